@@ -579,6 +579,7 @@ pub fn run_c05(ctx: &mut Ctx) {
         "connections carrying k = 1..4 sequential requests through the conversion chain request parser -> stream parser -> request parser with one shared buffer; per-request contents as in C01/C02 (noise included); \
          the caller stops reading a stream never / mid-record / at end / before the first byte; look-ahead from 0 bytes to a full buffer at every hand-off (ending mid-header / mid-payload / mid-padding by random chunking); \
          oracle: every environment and every fully-read stream equals what was sent for that request, leftovers are exactly the unread suffix. Non-trivial: k >= 2 or unread input; distinct by (wire, buffer, schedule)");
+    crate::exec::witness_corpus(&["C05_"], &mut log, &mut im, &mut or);
     let mut rng = ctx.rng.fork();
     for ci in 0..ctx.n(1000, 6000) {
         if or.saturated() { or.count("stopped_early_saturated"); break; }
